@@ -287,6 +287,50 @@ pub fn c13(t: &dyn TypeOps, cx: &mut Cx, dmax: usize) {
             if execs > 300_000 { cx.count("capped_values", 1); break; }
         }
         cx.count(&format!("scripts_D{}", dmax), execs);
+        // all scripts with two deviations at ADJACENT choice points (a short write followed by an
+        // interruption or a failure inside the same request), whatever the deviation bound
+        if dmax < 2 {
+            let mut probe = ScriptWriter::new(Script::default());
+            let _ = t.ser_script(i, &mut probe);
+            let npoints = probe.log.len();
+            let mut pairs = 0u64;
+            for p in 0..npoints.saturating_sub(0) {
+                for a in [0u8, 1, 2] {
+                    for b in [0u8, 1, 2, 3, 4] {
+                        pairs += 1;
+                        cx.evals += 1;
+                        let mut w = ScriptWriter::new(Script { dev: vec![(p, a), (p + 1, b)] });
+                        protect(&prot);
+                        let r = t.ser_script(i, &mut w);
+                        let freed = unprotect();
+                        cx.transitions += w.log.len() as u64;
+                        let hard = w.hard_fail;
+                        let mut bad: Vec<&str> = vec![];
+                        match &r {
+                            Out::Panic(_) => bad.push("panic"),
+                            Out::Ok(cnt) => { if hard { bad.push("success-despite-failure"); } else if *cnt != reference.len() || w.accepted != reference { bad.push("bytes-differ-from-fault-free"); } }
+                            Out::Err(e) if e == "WriteError" => { if !hard { bad.push("error-without-failure"); } }
+                            Out::Err(_) => bad.push("wrong-error-kind"),
+                        }
+                        if !reference.starts_with(&w.accepted) { bad.push("accepted-not-a-prefix"); }
+                        if freed > 0 { bad.push("source-memory-freed"); }
+                        for b_ in bad { cx.violate(&format!("writer-{}", b_), json!({"value": vdesc(i, &want), "script": format!("[({}, {}), ({}, {})]", p, a, p + 1, b), "observed": r.describe()})); }
+                    }
+                }
+            }
+            cx.count("scripts_adjacent_pairs", pairs);
+        }
+        // a flush that is interrupted forever never completes: an error, not success
+        {
+            cx.evals += 1;
+            let mut w = ScriptWriter::new(Script::default());
+            w.flush_always_interrupted = true;
+            let r = t.ser_script(i, &mut w);
+            cx.outcome(&format!("flush-always-interrupted-{}", r.class()));
+            if !matches!(&r, Out::Err(e) if e == "WriteError") {
+                cx.violate(&format!("writer-flush-never-completes-{}", if matches!(r, Out::Ok(_)) { "reports-success".to_string() } else { r.class() }), json!({"value": vdesc(i, &want), "flush_attempts": w.log.iter().filter(|x| x.1).count(), "observed": r.describe()}));
+            }
+        }
         // real sinks: a buffered file on a full device (the error surfaces when the buffer is
         // flushed) and a path that cannot be created
         if vi == 0 {
@@ -360,6 +404,33 @@ pub fn c14(t: &dyn TypeOps, cx: &mut Cx, dmax: usize) {
             if execs > 300_000 { cx.count("capped_values", 1); break; }
         }
         cx.count(&format!("scripts_D{}", dmax), execs);
+        if dmax < 2 {
+            // two deviations at adjacent choice points (e.g. a short read then an interruption
+            // inside the same request)
+            let mut probe = ScriptReader::new(&bytes, Script::default());
+            let _ = t.full_script(&mut probe);
+            let npoints = probe.point;
+            let mut pairs = 0u64;
+            for p in 0..npoints {
+                for a in [0u8, 1, 2] {
+                    for b in 0..5u8 {
+                        pairs += 1;
+                        cx.evals += 1;
+                        let mut rd = ScriptReader::new(&bytes, Script { dev: vec![(p, a), (p + 1, b)] });
+                        let o = t.full_script(&mut rd);
+                        cx.transitions += rd.point as u64;
+                        let hard = rd.hard_fail;
+                        match (&o, hard) {
+                            (Out::Ok(x), false) if *x == want => {}
+                            (Out::Err(e), true) if e == "ReadError" => {}
+                            (o, _) => cx.violate(&format!("reader-{}-{}", if hard { "failure" } else { "fragmentation" }, if matches!(o, Out::Ok(_)) { "value".to_string() } else { o.class() }),
+                                json!({"value": vdesc(i, &want), "script": format!("[({}, {}), ({}, {})]", p, a, p + 1, b), "observed": o.describe()})),
+                        }
+                    }
+                }
+            }
+            cx.count("scripts_adjacent_pairs", pairs);
+        }
         if vi == 0 { cx.sample(json!({"type": cx.type_id, "value": format!("{:?}", want), "scripts_explored": execs, "deviation_bound": dmax})); }
     }
     // a large value (payload past 64 KiB) through fragmenting readers and a real BufReader
